@@ -43,9 +43,66 @@ def scanner_girs(rng, n_each):
         r = S.run(c12.symbols(w, S), includes=['GLib', 'GObject', 'Gio'], dump=ET.ElementTree(ET.fromstring(c12.dump_xml(w))), warnings=False)
         out.append(('runtime dump world #%d' % b, r.xml, ['GLib', 'GObject', 'Gio']))
     for b in range(n_each):
+        out.append(('structure and virtual-method world #%d' % b, vfunc_world(rng, S, ET), ['GLib', 'GObject', 'Gio']))
+    for b in range(n_each):
         w = c16.gen_world(rng, b)
         out.append(('declaration world #%d' % b, c16_run.build(w), w['includes']))
     return out
+
+
+def vfunc_world(rng, S, ET):
+    """a class whose class structure has function-pointer members with annotated return values and parameters (they become virtual
+    methods), and a plain structure whose members include function pointers the scanner cannot describe (variadic, unknown types)"""
+    from giscanner.sourcescanner import CSYMBOL_TYPE_ELLIPSIS
+    def tree(t):
+        n = t.rstrip('*')
+        r = S.VOID if n == 'void' else S.td(n)
+        for _ in range(len(t) - len(n)):
+            r = S.ptr(r)
+        return r
+
+    def member_cb(name, ret, params, line):
+        return S.FS(S.CSYMBOL_TYPE_MEMBER, name, base_type=S.ptr(S.FT(S.CTYPE_FUNCTION, base_type=tree(ret), child_list=params)), line=line)
+    syms = [S.FS(S.CSYMBOL_TYPE_TYPEDEF, 'FooVObj', base_type=S.FT(S.CTYPE_STRUCT, '_FooVObj'), line=10),
+            S.FS(S.CSYMBOL_TYPE_STRUCT, '_FooVObj', base_type=S.FT(S.CTYPE_STRUCT, '_FooVObj', child_list=[
+                S.FS(S.CSYMBOL_TYPE_MEMBER, 'parent', base_type=S.td('GObject'), line=11)]), line=11),
+            S.FS(S.CSYMBOL_TYPE_TYPEDEF, 'FooVObjClass', base_type=S.FT(S.CTYPE_STRUCT, '_FooVObjClass'), line=20),
+            S.func('foo_vobj_get_type', S.td('GType'), [], line=5)]
+    rets = [('GList*', '(transfer container) (element-type utf8)'), ('GList*', '(transfer full) (element-type utf8)'),
+            ('GPtrArray*', '(transfer container) (element-type utf8)'), ('gchar*', '(transfer full)'), ('gchar*', '(transfer none) (nullable)'),
+            ('gint', ''), ('FooVObj*', '(transfer none)'), ('FooVObj*', '(transfer full)'), ('GHashTable*', '(transfer container) (element-type utf8 utf8)')]
+    kids = [S.FS(S.CSYMBOL_TYPE_MEMBER, 'parent_class', base_type=S.td('GObjectClass'), line=21)]
+    comments = []
+    line = 1000
+    for i in range(rng.randint(2, 6)):
+        rt, rann = rng.choice(rets)
+        pnames = ['self'] + ['p%d' % j for j in range(rng.randint(0, 2))]
+        ptypes = ['FooVObj*'] + [rng.choice(['gint', 'gchar*', 'gchar**', 'GList*', 'gint*']) for _ in pnames[1:]]
+        panns = [''] + [rng.choice(['', '(nullable)', '(out)', '(inout) (nullable)', '(transfer full)', '(element-type gint)', '(out) (optional)'])
+                        if t.endswith('*') else '' for t in ptypes[1:]]
+        kids.append(member_cb('vm%d' % i, rt, [S.param(n, tree(t)) for n, t in zip(pnames, ptypes)], 22 + i))
+        text = '/**\n * FooVObjClass::vm%d:\n%s *\n * A virtual method.\n *\n * Returns: %s%sthe value\n */' % (
+            i, ''.join(' * @%s: %s%sparameter\n' % (n, a, ': ' if a else '') for n, a in zip(pnames, panns)), rann, ': ' if rann else '')
+        comments.append((text, '/src/foo.c', line))
+        line += 20
+        if rng.random() < 0.6:      # the invoker method
+            syms.append(S.func('foo_vobj_vm%d' % i, tree(rt), [S.param(n, tree(t)) for n, t in zip(pnames, ptypes)], line=40 + i))
+    syms.append(S.FS(S.CSYMBOL_TYPE_STRUCT, '_FooVObjClass', base_type=S.FT(S.CTYPE_STRUCT, '_FooVObjClass', child_list=kids), line=21))
+    # a plain table of operations: some members cannot be described
+    ops = [S.FS(S.CSYMBOL_TYPE_MEMBER, 'count', base_type=S.td('gint'), line=61),
+           member_cb('plain', 'void', [S.param('x', S.td('gint'))], 62)]
+    if rng.random() < 0.7:
+        ops.append(member_cb('log', 'void', [S.param('fmt', tree('gchar*')), S.FS(CSYMBOL_TYPE_ELLIPSIS, None, base_type=None)], 63))
+    if rng.random() < 0.7:
+        ops.append(member_cb('mystery', 'void', [S.param('u', tree('FooUnknownThing*'))], 64))
+    if rng.random() < 0.5:
+        ops.append(member_cb('va', 'void', [S.param('args', S.td('va_list'))], 65))
+    rng.shuffle(ops)
+    syms += [S.FS(S.CSYMBOL_TYPE_TYPEDEF, 'FooOps', base_type=S.FT(S.CTYPE_STRUCT, '_FooOps'), line=60),
+             S.FS(S.CSYMBOL_TYPE_STRUCT, '_FooOps', base_type=S.FT(S.CTYPE_STRUCT, '_FooOps', child_list=ops), line=60)]
+    dump = '<?xml version="1.0"?><dump><class name="FooVObj" get-type="foo_vobj_get_type" parents="GObject"></class></dump>'
+    r = S.run(syms, comments=comments, includes=['GLib', 'GObject', 'Gio'], dump=ET.ElementTree(ET.fromstring(dump)), warnings=False)
+    return r.xml
 
 
 def parse_dump(text):
